@@ -14,6 +14,7 @@
 import YtkModel.Generated.Constants
 import YtkProofs.DocSet
 import YtkProofs.DecisionsDocSet
+import YtkProofs.FuncsLemmas
 
 namespace Ytk.C18
 
@@ -312,5 +313,23 @@ theorem nonvacuous_history :
 
 /-- Tie to the source text (regenerated on every run): the implicit tag every document carries. -/
 theorem source_constants : Generated.const? "analytics.wildcardTag" = some "*" := by decide
+
+end Ytk.C18
+
+/-! ## Translated functions (YtkModel/Generated/Funcs.lean, regenerated from the Go source on every
+    run): the translation EQUALS the hand-written model, for all inputs. -/
+namespace Ytk.C18
+open Ytk.Generated
+
+theorem Unique_loop1_eq (xs acc : List String) : Funcs.Unique_loop1 xs acc = DocSet.uniqueAux acc xs := by
+  induction xs generalizing acc with
+  | nil => simp [Funcs.Unique_loop1, DocSet.uniqueAux]
+  | cons x xs ih =>
+    simp only [Funcs.Unique_loop1, DocSet.uniqueAux, Go.slicesContains, ih]
+    cases acc.contains x <;> simp
+
+/-- utils.Unique, as translated from the source, is the model's `DocSet.unique` (all lists) -/
+theorem Unique_generated_eq_model (xs : List String) : Funcs.Unique xs = DocSet.unique xs := by
+  simp [Funcs.Unique, DocSet.unique, Unique_loop1_eq]
 
 end Ytk.C18
